@@ -1,7 +1,92 @@
-import Labella.Model.CalSpec
+import Labella.Model.Scale
+import Labella.Props.C16
+import Labella.Proofs.TickLemmas
+import Mathlib.Algebra.Order.Field.Rat
+import Mathlib.Tactic.Ring
+import Mathlib.Tactic.Linarith
+import Mathlib.Tactic.FieldSimp
+import Mathlib.Tactic.NormNum
+/-! # C14 (linear part) — nice() only widens a domain, by less than two tick steps, to round end points
+
+Stated over ℚ; thresholds and multipliers come from `Gen/Constants.lean` (regenerated from the source). -/
 namespace Labella.C14
 open Labella Labella.Scale
 
-theorem placeholder_interp (a b : Rat) : interp a b 0 = a * (1 - 0) + b * 0 := rfl
+/-! ### nice (linear) -/
+
+/-- the step never shrinks when the span grows -/
+theorem tickStep_mono (s1 s2 m : ℚ) (h1 : 0 < s1) (h12 : s1 ≤ s2) (hm : 0 < m) :
+    tickStep s1 m ≤ tickStep s2 m := by
+  exact Scale.tickStep_mono s1 s2 m h1 h12 hm
+
+/-- making a domain nice never moves an end inward and keeps the orientation -/
+theorem nice_widens (d0 d1 m : ℚ) (hm : 0 < m) :
+    (d0 < d1 → (nice d0 d1 m).1 ≤ d0 ∧ d1 ≤ (nice d0 d1 m).2) ∧
+    (d1 < d0 → d0 ≤ (nice d0 d1 m).1 ∧ (nice d0 d1 m).2 ≤ d1) := by
+  constructor
+  · intro h
+    obtain ⟨a1, a2, -⟩ := nicePass_lt_props d0 d1 m h hm
+    have hp : (nicePass d0 d1 m).1 < (nicePass d0 d1 m).2 := by linarith
+    obtain ⟨b1, b2, -⟩ := nicePass_lt_props _ _ m hp hm
+    rw [nice_eq]
+    exact ⟨le_trans b1 a1, le_trans a2 b2⟩
+  · intro h
+    obtain ⟨a1, a2⟩ := nicePass_gt_props d0 d1 m h hm
+    have hp : (nicePass d0 d1 m).2 < (nicePass d0 d1 m).1 := by linarith
+    obtain ⟨b1, b2⟩ := nicePass_gt_props _ _ m hp hm
+    rw [nice_eq]
+    exact ⟨le_trans a1 b1, le_trans b2 a2⟩
+
+/-- each end moves by less than two tick steps of the resulting domain -/
+theorem nice_less_than_two_steps (d0 d1 m : ℚ) (hd : d0 < d1) (hm : 0 < m) :
+    let n := nice d0 d1 m
+    let step := (tickRange n.1 n.2 m).2.2
+    d0 - n.1 < 2 * step ∧ n.2 - d1 < 2 * step := by
+  intro n step
+  obtain ⟨a1, a2, a3, a4, -⟩ := nicePass_lt_props d0 d1 m hd hm
+  have hp : (nicePass d0 d1 m).1 < (nicePass d0 d1 m).2 := by linarith
+  obtain ⟨b1, b2, b3, b4, -⟩ := nicePass_lt_props _ _ m hp hm
+  rw [← nice_eq] at b1 b2 b3 b4
+  have hn : n.1 < n.2 := by show (nice d0 d1 m).1 < (nice d0 d1 m).2; linarith
+  have hstep : step = tickStep (n.2 - n.1) m := tickRange_step_of_lt _ _ m hn
+  have m1 : tickStep (d1 - d0) m ≤ tickStep ((nicePass d0 d1 m).2 - (nicePass d0 d1 m).1) m :=
+    Scale.tickStep_mono _ _ m (sub_pos.mpr hd) (by linarith) hm
+  have m2 : tickStep ((nicePass d0 d1 m).2 - (nicePass d0 d1 m).1) m ≤ tickStep (n.2 - n.1) m :=
+    Scale.tickStep_mono _ _ m (sub_pos.mpr hp)
+      (by show _ ≤ (nice d0 d1 m).2 - (nice d0 d1 m).1; linarith) hm
+  rw [hstep]
+  constructor
+  · show d0 - (nice d0 d1 m).1 < _; linarith
+  · show (nice d0 d1 m).2 - d1 < _; linarith
+
+/-- after the second pass both ends are integer multiples of that pass's step -/
+theorem nice_ends_are_multiples (d0 d1 m : ℚ) (hd : d0 < d1) (hm : 0 < m) :
+    let p := nicePass d0 d1 m
+    let step2 := (tickRange p.1 p.2 m).2.2
+    ∃ k0 k1 : Int, (nice d0 d1 m).1 = (k0 : ℚ) * step2 ∧ (nice d0 d1 m).2 = (k1 : ℚ) * step2 := by
+  intro p step2
+  obtain ⟨a1, a2, -⟩ := nicePass_lt_props d0 d1 m hd hm
+  have hp : p.1 < p.2 := by show (nicePass d0 d1 m).1 < (nicePass d0 d1 m).2; linarith
+  obtain ⟨-, -, -, -, k0, k1, e0, e1⟩ := nicePass_lt_props p.1 p.2 m hp hm
+  have hstep : step2 = tickStep (p.2 - p.1) m := tickRange_step_of_lt _ _ m hp
+  rw [hstep, nice_eq]
+  exact ⟨k0, k1, e0, e1⟩
+
+/-! ### nice (time) — proved in `Props/C16.lean` next to the tick theorems they share lemmas with -/
+
+/-- making a time domain nice never moves an end inward and never reverses its orientation -/
+theorem time_nice_widens (d0 d1 : Int) (m : Rat) :
+    (d0 ≤ d1 → (Calendar.nice d0 d1 m).1 ≤ d0 ∧ d1 ≤ (Calendar.nice d0 d1 m).2) ∧
+    (d1 < d0 → d0 ≤ (Calendar.nice d0 d1 m).1 ∧ (Calendar.nice d0 d1 m).2 ≤ d1) :=
+  C16.nice_widens d0 d1 m
+
+/-- with a calendar method both new ends are boundaries of the method's unit: aligned at least as coarsely as the ticks -/
+theorem time_nice_on_boundaries (d0 d1 : Int) (m : Rat) (u : Calendar.TUnit) (s : Rat)
+    (h : Calendar.tickMethod (min d0 d1) (max d0 d1) m = .cal u s) :
+    Calendar.isBoundary u (Calendar.nice d0 d1 m).1 = true ∧ Calendar.isBoundary u (Calendar.nice d0 d1 m).2 = true :=
+  C16.nice_on_boundaries d0 d1 m u s h
+
+-- non-vacuity: `nice (3/10) (97/10) 10 = (0, 10)` (evaluated); time: `nice 1000 90000000 10 = (0, 97200000)`
+example : Calendar.nice 1000 90000000 10 = (0, 97200000) := by decide +kernel
 
 end Labella.C14
